@@ -462,6 +462,34 @@ def check_properties(prog: Program, L: Ledger) -> None:
                     if isinstance(c.func, ast.Attribute) and c.func.attr == "__init__" and (any(norm(a) == p for a in c.args) or any(k.arg == p for k in c.keywords)):
                         assigned = True
             L.check(assigned, "P", f"{d.name}.__init__:{p}", init.where, f"constructor parameter `{p}` of {d.name} is never stored through its property", f"{d.name}(..., {p}=x) runs at the default {p}", p)
+            # … for EVERY value: a store skipped when the parameter is falsy (0 is a legal temperature offset, pressure,
+            # chemical potential) leaves the slot at the context's own default, which must then be that falsy value
+            slot = next((st.value.attr for st in getter.body() if isinstance(st, ast.Return) and isinstance(st.value, ast.Attribute) and norm(st.value.value) == "self.context"), None)
+            ctx = prog.classvar_class(d, "default_context")
+
+            def truth_tests(test, name):
+                if isinstance(test, ast.Name):
+                    return test.id == name
+                if isinstance(test, ast.UnaryOp) and isinstance(test.op, ast.Not):
+                    return truth_tests(test.operand, name)
+                if isinstance(test, ast.BoolOp):
+                    return any(truth_tests(v, name) for v in test.values)
+                return False
+
+            for iff in [n2 for n2 in walk_no_nested(init.node) if isinstance(n2, ast.If) and truth_tests(n2.test, p)]:
+                stores = [st for b in iff.body + iff.orelse for st in [b, *walk_no_nested(b)] if isinstance(st, ast.Assign) and any(norm(t) == f"self.{p}" for t in st.targets)]
+                if not stores or slot is None or ctx is None:
+                    continue
+                default = None
+                for cf in prog.super_chain(ctx, "__init__"):
+                    for a_ in walk_no_nested(cf.node):
+                        tg_ = a_.targets if isinstance(a_, ast.Assign) else [a_.target] if isinstance(a_, ast.AnnAssign) and a_.value is not None else []
+                        if any(norm(t) == f"self.{slot}" for t in tg_) and default is None:
+                            default = a_.value
+                falsy_default = isinstance(default, ast.Constant) and not isinstance(default.value, str) and default.value is not None and not default.value
+                L.check(falsy_default, "P", f"{d.name}.__init__:{p}:truth-tested", f"{init.module.relpath}:{iff.lineno}",
+                        f"`{p}` is stored only when it is truthy (`if {norm(iff.test)}`), and the context's own default for `{slot}` is `{norm(default) if default is not None else '?'}`, not the falsy value: {d.name}(..., {p}=0) runs at that default instead of 0",
+                        f"{d.name}(..., {p}=0.0): the acceptance rule uses {slot} = {norm(default) if default is not None else '?'}", p)
 
 
 def check_particle_number(prog: Program, L: Ledger) -> None:
